@@ -761,7 +761,7 @@ func (in *instr) fieldName(x *ast.SelectorExpr) string {
 
 // watchedName returns the display name of a watched location expression ("" if e is not one):
 // a listed field, or under the wildcard any addressable field of a struct type declared in this
-// package, or an alias of such a field.
+// package or of a package-level variable of this package, or an alias of such a field.
 func (in *instr) watchedName(e ast.Expr) string {
 	switch x := ast.Unparen(e).(type) {
 	case *ast.SelectorExpr:
@@ -781,8 +781,21 @@ func (in *instr) watchedName(e ast.Expr) string {
 			recv = p.Elem()
 		}
 		named, ok := recv.(*types.Named)
-		if !ok || named.Obj().Pkg() != in.pkg.Types {
+		if !ok {
 			return ""
+		}
+		if named.Obj().Pkg() != in.pkg.Types {
+			// a field of a type declared elsewhere is watched when it is reached through a
+			// package-level variable of this package (dmp.DiffTimeout): every call shares the object
+			id, isId := ast.Unparen(x.X).(*ast.Ident)
+			if !isId {
+				return ""
+			}
+			v, isVar := in.pkg.TypesInfo.Uses[id].(*types.Var)
+			if !isVar || v.IsField() || v.Parent() != in.pkg.Types.Scope() {
+				return ""
+			}
+			name = id.Name + "." + x.Sel.Name + " (field of a package variable)"
 		}
 		if tv, ok := in.pkg.TypesInfo.Types[x]; !ok || !tv.Addressable() {
 			return ""
